@@ -124,6 +124,9 @@ def check_setter_sites(rep, label, c, h, cn, field_pat):
             # both branches call the same setter
             twin = False
             for a in anc:
+                if a.get("k") == "match" and a.get("src", "normal") == "normal" and a.get("arms") and \
+                        all(any(x.get("k") == "mcall" and x["name"] == n["name"] for x, _ in walk(ar_["body"])) for ar_ in a["arms"]) and any(contains_node(ar_["body"], n) for ar_ in a["arms"]):
+                    twin = True
                 if a.get("k") == "if" and a.get("else") is not None:
                     t_has = any(x.get("k") == "mcall" and x["name"] == n["name"] for x, _ in walk(a["then"]))
                     e_has = any(x.get("k") == "mcall" and x["name"] == n["name"] for x, _ in walk(a["else"]))
@@ -301,6 +304,29 @@ def run(facts, rep, tier):
             bad = "not evaluable (%s)" % e_
         rep.ob("C15.D3", "cli-specifier-parsed-as-documented", bad is None, "evaluated on %d specifiers: `[rename=]crate@version` with digits, hyphens, underscores, `*`, `!`" % nsc if bad is None else
                "the CLI's crate specifier parser is wrong: %s" % bad, fs[0].get("sp") or cli.fns[fs[0]["fn"]].get("sp"))
+    # macro: the map key is a crate name, kept as written
+    cn_de = [h for h in mc.user_fns() if "CrateName" in h["fn"] and "deserialize" in h["fn"]]
+    if rep.floor("C15.D3", "macro crate name deserializer", len(cn_de), 1):
+        machk = mr.Machine(mc, hooks={"deserialize": lambda mach, d_: ("Ok", d_), "invalid_value": lambda mach, *a_: ("ctor", "DeError", [])})
+        badk = None
+        try:
+            for nm_ in NAMES + ["my-crate"]:
+                machk.fuel = 50000
+                r_ = machk.run_fn(cn_de[0], [nm_])
+                got = r_[1][2][0] if isinstance(r_, tuple) and r_[0] == "Ok" and isinstance(r_[1], tuple) and r_[1][0] == "ctor" and r_[1][2] else (r_[1] if isinstance(r_, tuple) and r_[0] == "Ok" else None)
+                if got != nm_:
+                    badk = "the crate name `%s` is stored as %r: the generator looks crates up under the name the schema's x-rust-type states, so the entry is never found (or found for another crate)" % (nm_, got)
+                    break
+            for nm_ in ("a b", "a/b"):
+                if badk:
+                    break
+                r_ = machk.run_fn(cn_de[0], [nm_])
+                if isinstance(r_, tuple) and r_[0] == "Ok":
+                    badk = "the malformed crate name `%s` is accepted" % nm_
+        except mr.Unknown as e_:
+            badk = "not evaluable (%s)" % e_
+        rep.ob("C15.D3", "macro-crate-name-as-written", badk is None, "crate names (with digits, hyphens, underscores) are kept as written" if badk is None else
+               "the macro's crate name parser is wrong: %s" % badk, cn_de[0].get("sp") or mc.fns[cn_de[0]["fn"]].get("sp"))
     # macro: the map value "orig@version" / "version"
     de = [h for h in mc.user_fns() if "MacroCrateSpec" in h["fn"] and "deserialize" in h["fn"]]
     if rep.floor("C15.D3", "macro crate spec deserializer", len(de), 1):
